@@ -179,6 +179,9 @@ def run(tier: str, seed: int) -> int:
         c["_fresh"] = fresh
     obs = drive("harness.props.c15", "drive_case", cases, chunk=100)
     verdicts = chk.judge("Judge_C15", obs)
+    from .. import corrupt as _corrupt
+
+    chk.binding_selftest("Judge_C15", obs, verdicts, _corrupt.c15)
     by_id = {o["id"]: {"history": o["hist"], "probe": o["probe"], "got": [uncps(q) for q in o["got"]["out"]] or o["got"]["exc"], "fresh": [uncps(q) for q in o["fresh"]["out"]] or o["fresh"]["exc"]} for o in obs}
     chk.absorb(verdicts, by_id, {c["id"]: {k: v for k, v in c.items() if k != "_fresh"} for c in cases})
     nontrivial = sum(1 for c in cases if len(c["hist"]) >= 3)
